@@ -8,7 +8,7 @@ register(PropSpec(
     engines=[EngineSpec("exec", gen_dispatch.gen_c03, gen_dispatch.mon_c03, gen_dispatch.tags_c03, quick_n=220, thorough_n=6000,
                         mask=mon_exec.mask_unmodelled),
              EngineSpec("msig", gen_dispatch.gen_msig, gen_dispatch.mon_msig, None, quick_n=40, thorough_n=1500)],
-    facts=["proofFanout"],
+    facts=["proofFanout", "proofMaxGroup"],
     rule="exec engine: requests and receipts with proof kinds ok / absent / hash-mismatch / plain-false, from chains whose rule accepts (c1, c2), rejects with an "
          "error (c3), or that are unknown / foreign / malformed, mixed with valid traffic; every such block bracketed by full state dumps; the same IBTPs offered "
          "to InterchainManager.HandleIBTPData by direct calls; msig engine: VerifyPool.verifyMultiSign with real secp256k1 signatures: exhaustive for <= 4 "
